@@ -1197,6 +1197,11 @@ fn cpu_ticks() -> u64 {
     0
 }
 
+/// Exit without running destructors or taking any lock (the stuck thread may hold some).
+fn unsafe_exit(code: i32) -> ! {
+    std::process::exit(code)
+}
+
 /// Entry point of a generated batch binary.
 pub fn run_batch(batch_name: &str, cases: &[CaseEntry]) {
     let plan = Plan::from_env();
@@ -1210,6 +1215,7 @@ pub fn run_batch(batch_name: &str, cases: &[CaseEntry]) {
     let lines: Mutex<Vec<String>> = Mutex::new(vec![]);
     let done = std::sync::atomic::AtomicBool::new(false);
     let stuck_cpu_s = env_usize("VP_STUCK_CPU_S", 120) as u64;
+    let initial_ppid = if cfg!(miri) { 0 } else { std::os::unix::process::parent_id() };
     std::thread::scope(|sc| {
         // watchdog: no case finished and >= stuck_cpu_s CPU-seconds burnt since the last heartbeat
         sc.spawn(|| {
@@ -1222,24 +1228,31 @@ pub fn run_batch(batch_name: &str, cases: &[CaseEntry]) {
                         return;
                     }
                 }
+                if !cfg!(miri) && std::os::unix::process::parent_id() != initial_ppid {
+                    // the orchestrator is gone: nobody will read the result
+                    unsafe_exit(4);
+                }
                 let hb = HEARTBEAT.load(Ordering::Relaxed);
                 let cpu = cpu_ticks();
                 if hb != last_hb {
                     last_hb = hb;
                     cpu_at_hb = cpu;
                 } else if cpu.saturating_sub(cpu_at_hb) >= stuck_cpu_s * 100 {
-                    let cur = current.lock().unwrap();
-                    let what: Vec<String> = cur.values().cloned().collect();
-                    println!(
-                        "{}",
-                        J::obj()
-                            .with("t", J::s("STUCK"))
-                            .with("batch", J::s(batch_name))
-                            .with("cases", J::Arr(what.iter().map(|s| J::s(s)).collect()))
-                            .with("cpu_s", J::Int((cpu.saturating_sub(cpu_at_hb) / 100) as i64))
-                            .to_string()
-                    );
-                    std::process::exit(3);
+                    let what: Vec<String> = match current.lock() {
+                        Ok(cur) => cur.values().cloned().collect(),
+                        Err(_) => vec![],
+                    };
+                    // never let a failing write (parent gone, pipe closed) keep a spinning process alive
+                    use std::io::Write;
+                    let line = J::obj()
+                        .with("t", J::s("STUCK"))
+                        .with("batch", J::s(batch_name))
+                        .with("cases", J::Arr(what.iter().map(|s| J::s(s)).collect()))
+                        .with("cpu_s", J::Int((cpu.saturating_sub(cpu_at_hb) / 100) as i64))
+                        .to_string();
+                    let _ = writeln!(std::io::stdout(), "{}", line);
+                    let _ = std::io::stdout().flush();
+                    unsafe_exit(3);
                 }
             }
         });
